@@ -15,7 +15,7 @@ use super::{
     dot_lookup::DotChain,
     list::Index,
     r#type::{IntoType, TypecheckFlags},
-    CompilationState, Compile, Dependencies, Ident, TypeLayout, Value,
+    CompilationState, Compile, Dependencies, Ident, NativeType, TypeLayout, Value,
 };
 
 pub static PRATT_PARSER: Lazy<PrattParser<Rule>> = Lazy::new(|| {
@@ -166,6 +166,17 @@ fn parse_path(
                     .for_type()
                     .details(lhs_span, &user_data.get_source_file_name(), "Invalid index")
                     .to_err_vec()?;
+
+                // indexing a `str` yields a new one-character string: there is no slot to assign to
+                if let TypeLayout::Native(native_ty) = lhs_ty.disregard_distractors(false) {
+                    if matches!(native_ty, NativeType::Str(..)) {
+                        return Err(vec![new_err(
+                            lhs_span,
+                            &user_data.get_source_file_name(),
+                            "a `str` cannot be changed through an index (build a new string instead)".to_owned(),
+                        )]);
+                    }
+                }
 
                 let index = Parser::list_index(
                     Node::new_with_user_data(op, Rc::clone(&user_data)),
